@@ -270,6 +270,16 @@ def _expand(call: ast.Call, callee: ast.FunctionDef, is_method: bool, caller: as
     return out, rexpr
 
 
+def _walk_no_nested(fn: ast.AST):
+    """the nodes of fn without those of the functions / classes / lambdas nested in it"""
+    work = list(ast.iter_child_nodes(fn))
+    while work:
+        n = work.pop()
+        yield n
+        if not isinstance(n, (ast.FunctionDef, ast.AsyncFunctionDef, ast.ClassDef, ast.Lambda)):
+            work.extend(ast.iter_child_nodes(n))
+
+
 def _chain(node) -> bool:
     while isinstance(node, ast.Attribute):
         node = node.value
@@ -372,6 +382,10 @@ def inline_unknown_helpers(trees: Dict[str, ast.Module], known: Optional[set] = 
         if not cand and not cond_defs:
             break
         done = 0
+        parent: Dict[int, ast.FunctionDef] = {}
+        for q, f in funcs.items():
+            for x in _nested_defs(f).values():
+                parent[id(x)] = f
 
         current_caller: List[Optional[ast.FunctionDef]] = [None]
 
@@ -406,6 +420,17 @@ def inline_unknown_helpers(trees: Dict[str, ast.Module], known: Optional[set] = 
                 return (q, True) if q in cand else None
             if isinstance(f, ast.Name) and f.id in closure_map.get(id(current_caller[0]), {}):
                 return closure_map[id(current_caller[0])][f.id], "closure"
+            # a sibling closure called from inside a nested function: its free variables are the enclosing function's there as
+            # well, provided the nested function does not bind a name of its own that the closure reads from outside
+            encl = parent.get(id(current_caller[0]))
+            if isinstance(f, ast.Name) and encl is not None and f.id != current_caller[0].name and f.id in closure_map.get(id(encl), {}):
+                qn = closure_map[id(encl)][f.id]
+                cal = cand[qn]
+                bound_c = {a.arg for a in cal.args.args + cal.args.kwonlyargs} | {x.id for x in ast.walk(cal) if isinstance(x, ast.Name) and isinstance(x.ctx, ast.Store)}
+                free_c = {x.id for x in ast.walk(cal) if isinstance(x, ast.Name) and isinstance(x.ctx, ast.Load)} - bound_c
+                own = {a.arg for a in current_caller[0].args.args + current_caller[0].args.kwonlyargs} | {x.id for x in ast.walk(current_caller[0]) if isinstance(x, ast.Name) and isinstance(x.ctx, ast.Store)}
+                if not (free_c & own):
+                    return qn, "closure"
             if isinstance(f, ast.Name) and f.id in cond_defs.get(id(current_caller[0]), {}) and getattr(call, "lineno", 0) > cond_defs[id(current_caller[0])][f.id][0].lineno:
                 return f.id, "conditional"
             if isinstance(f, ast.Name):
@@ -1853,6 +1878,99 @@ def expand_value_lookups(trees: Dict[str, ast.Module], max_rows: int = 12) -> in
             fn.body = rewrite(fn.body)
     for mod in touched:
         renumber(trees[mod])
+    return done
+
+
+# ---------------------------------------------------------------------------
+# r = f(*self.g())      with g returning k values on every return      is read as      a, b, c = self.g(); r = f(a, b, c)
+# ---------------------------------------------------------------------------
+def expand_star_calls(trees: Dict[str, ast.Module]) -> int:
+    """a call that hands on the k results of a helper by star-unpacking, f(x, *self.g(y)), where g is a function / method of the
+    package that returns a k-tuple on every return: the results are bound to locals first (named as g names them when its returns
+    agree, else _u0..), then passed one by one.  Only in a plain statement ( x = f(..) / f(..) / return f(..) ) whose other
+    arguments are names, attributes or constants, so that evaluating g first changes nothing.  Returns the number of rewrites."""
+    arity: Dict[str, set] = {}
+    names_of: Dict[str, set] = {}
+    for t in trees.values():
+        for fn in ast.walk(t):
+            if not isinstance(fn, ast.FunctionDef):
+                continue
+            rets = [r for r in _walk_no_nested(fn) if isinstance(r, ast.Return)]
+            ks = {len(r.value.elts) if isinstance(r.value, ast.Tuple) and not any(isinstance(e, ast.Starred) for e in r.value.elts) else None for r in rets} or {None}
+            arity.setdefault(fn.name, set()).update(ks)
+            for r in rets:
+                if isinstance(r.value, ast.Tuple):
+                    names_of.setdefault(fn.name, set()).add(tuple(e.id if isinstance(e, ast.Name) else None for e in r.value.elts))
+    done = 0
+
+    def simple(e):
+        return isinstance(e, (ast.Name, ast.Constant)) or (isinstance(e, ast.Attribute) and _chain(e))
+
+    def rewrite(body, taken):
+        nonlocal done
+        out = []
+        for s_ in body:
+            for fld in ("body", "orelse", "finalbody"):
+                b = getattr(s_, fld, None)
+                if isinstance(b, list) and b and isinstance(b[0], ast.stmt) and not isinstance(s_, (ast.FunctionDef, ast.ClassDef)):
+                    setattr(s_, fld, rewrite(b, taken))
+            for h in getattr(s_, "handlers", []) or []:
+                h.body = rewrite(h.body, taken)
+            call = s_.value if isinstance(s_, (ast.Assign, ast.Expr, ast.Return)) and isinstance(getattr(s_, "value", None), ast.Call) else None
+            stars = [a for a in call.args if isinstance(a, ast.Starred)] if call is not None else []
+            if len(stars) == 1 and isinstance(stars[0].value, ast.Call) and all(simple(a) for a in call.args if a is not stars[0]) \
+                    and all(k.arg is not None and simple(k.value) for k in call.keywords):
+                g = stars[0].value
+                gname = g.func.attr if isinstance(g.func, ast.Attribute) else (g.func.id if isinstance(g.func, ast.Name) else None)
+                ks = arity.get(gname)
+                if gname and ks and len(ks) == 1 and None not in ks:
+                    k = next(iter(ks))
+                    nm = names_of.get(gname, set())
+                    names = list(next(iter(nm))) if len(nm) == 1 and all(n_ is not None for n_ in next(iter(nm))) and len(set(next(iter(nm)))) == k else [None] * k
+                    names = [n_ if n_ is not None and n_ not in taken else f"_u{i}_{s_.lineno}" for i, n_ in enumerate(names)]
+                    taken.update(names)
+                    bind = ast.Assign(targets=[ast.Tuple(elts=[ast.Name(id=n_, ctx=ast.Store()) for n_ in names], ctx=ast.Store())], value=g)
+                    i = call.args.index(stars[0])
+                    call.args[i:i + 1] = [ast.Name(id=n_, ctx=ast.Load()) for n_ in names]
+                    ast.copy_location(bind, s_)
+                    ast.fix_missing_locations(bind)
+                    ast.fix_missing_locations(s_)
+                    out.append(bind)
+                    done += 1
+            out.append(s_)
+        return out
+
+    for t in trees.values():
+        for fn in ast.walk(t):
+            if isinstance(fn, ast.FunctionDef):
+                taken = {x.id for x in ast.walk(fn) if isinstance(x, ast.Name)} | {a.arg for a in fn.args.args + fn.args.kwonlyargs}
+                fn.body = rewrite(fn.body, taken)
+    # f(a, **self.h())  with h a method without parameters whose body is  return {'k1': <self.x.y>, ..}  - the keywords it spells
+    tables: Dict[str, list] = {}
+    for t in trees.values():
+        for fn in ast.walk(t):
+            if isinstance(fn, ast.FunctionDef):
+                body = [s_ for s_ in fn.body if not (isinstance(s_, ast.Expr) and isinstance(s_.value, ast.Constant))]
+                d = body[0].value if len(body) == 1 and isinstance(body[0], ast.Return) and isinstance(body[0].value, ast.Dict) else None
+                ok = (d is not None and [a.arg for a in fn.args.args] == ["self"] and not fn.args.kwonlyargs and not fn.args.vararg and not fn.args.kwarg and d.keys
+                      and all(isinstance(k, ast.Constant) and isinstance(k.value, str) and k.value.isidentifier() for k in d.keys)
+                      and all(isinstance(v, ast.Constant) or (isinstance(v, ast.Attribute) and _chain(v) and _chain_text(v).startswith("self.")) for v in d.values))
+                tables.setdefault(fn.name, []).append(d if ok else None)
+    for t in trees.values():
+        for c in ast.walk(t):
+            if not isinstance(c, ast.Call):
+                continue
+            for kw in list(c.keywords):
+                v = kw.value
+                if kw.arg is None and isinstance(v, ast.Call) and not v.args and not v.keywords and isinstance(v.func, ast.Attribute) and isinstance(v.func.value, ast.Name) \
+                        and v.func.value.id == "self" and len(tables.get(v.func.attr, [])) == 1 and tables[v.func.attr][0] is not None:
+                    d = tables[v.func.attr][0]
+                    if {k.value for k in d.keys} & {k.arg for k in c.keywords if k.arg}:
+                        continue
+                    i = c.keywords.index(kw)
+                    c.keywords[i:i + 1] = [ast.keyword(arg=k.value, value=copy.deepcopy(x)) for k, x in zip(d.keys, d.values)]
+                    ast.fix_missing_locations(c)
+                    done += 1
     return done
 
 
